@@ -114,6 +114,16 @@ class Check:
     def run_all(self, queries):
         order = list(range(len(queries)))
         random.Random(self.seed).shuffle(order)
+
+        def est(q):
+            if getattr(q, 'cost', None):
+                return q.cost
+            # scheduler queries: cost grows with the schedule length; start the long ones first so that the wall time is max(longest, total/cores)
+            for d in q.cbmc_defines:
+                if d.startswith('VF_K='):
+                    return int(d[5:])
+            return 0
+        order.sort(key=lambda i: -est(queries[i]))   # stable: equal estimates keep the seeded shuffle
         # longest-first would be better, but the order only matters for wall time: the set of queries is fixed
         n = [0]
 
